@@ -579,3 +579,53 @@ class ConstsQap(_Backend):
             "V.modulus_is_scalar_field_order": p == BN254_R,
             "V.modulus_prime(miller_rabin_64)": miller_rabin(p),
         }
+
+
+# ---------------------------------------------------------------------------
+# pysnark.nobackend: the inert backend (not proof-producing: C13's algebra clauses do not apply to it).  What other
+# code relies on: every operation answers with a fresh inert object, nothing is recorded anywhere, operands untouched.
+# ---------------------------------------------------------------------------
+NOBACKEND = "pysnark.nobackend"
+
+
+class _NoBackend(_Backend):
+    module = NOBACKEND
+    fn = None
+    nargs = 0
+
+    def configs(self, tier):
+        return [dict()]
+
+    def setup(self, c, cfg):
+        m = self.mod(c)
+        self._objs = [m.NoneObject(), m.NoneObject()]
+        self._dicts = [dict(vars(o)) for o in self._objs]
+        f = getattr(m.NoneObject, self.fn) if self.fn.startswith("__") else getattr(m, self.fn)
+        if self.fn.startswith("__"):
+            args = tuple(self._objs[:1 if self.fn == "__neg__" else 2])
+        elif self.fn == "add_constraint":
+            args = (self._objs[0], self._objs[1], m.NoneObject())
+        elif self.fn in ("privval", "pubval", "fieldinverse"):
+            args = (SymInt(z3.Int("s_v")),)
+        else:
+            args = ()
+        return f, args, {}
+
+    def post(self, c, r, *a):
+        m = self.mod(c)
+        d = {"F.operands_untouched": all(dict(vars(o)) == d0 for o, d0 in zip(self._objs, self._dicts))}
+        if self.fn in ("add_constraint", "prove"):
+            d["V.returns_nothing"] = r is None
+        elif self.fn == "get_modulus":
+            d["V.plain_int_modulus"] = type(r) is int and r > 1
+        elif self.fn == "fieldinverse":
+            d["V.plain_int"] = type(r) is int
+        else:
+            d["V.fresh_inert_object"] = isinstance(r, m.NoneObject) and all(r is not o for o in self._objs) and not vars(r)
+        return d
+
+
+for _fn in ("__add__", "__sub__", "__mul__", "__neg__", "privval", "pubval", "zero", "one", "fieldinverse", "get_modulus", "add_constraint", "prove"):
+    register(type("NoBackend_" + _fn.strip("_"), (_NoBackend,),
+                  dict(name="%s:%s%s" % (NOBACKEND, "NoneObject." if _fn.startswith("__") else "", _fn), fn=_fn,
+                       __doc__="nobackend.%s: inert" % _fn)))
